@@ -450,6 +450,14 @@ Definition open (d : dir) (clock : Z) : res (st * unit * list syscall) :=
 
 Definition reopen (s : st) : res (st * unit * list syscall) := open (s_dir s) (s_clock s).
 
+(* ---------- failed writes (C20; theorems in Store/FaultContinue.v) ---------- *)
+(* the state after a failed append in invariant state s (the clock may have been read) *)
+Definition after_failed_append (s : st) (clk : Z) : st :=
+  mkSt (s_dir s) (s_idx s) (s_stats s) (s_active s) (s_written s) (s_last s) true clk.
+(* ... and after [n] creates of a new active file failed on top of that *)
+Definition after_failed_creates (s : st) (clk : Z) (n : N) : st :=
+  mkSt (s_dir s) (s_idx s) (s_stats s) (s_active s) (s_written s) (s_last s + n) true clk.
+
 (* ---------- scripts ---------- *)
 Inductive op :=
 | OSet (k v : bytes) | OGet (k : bytes) | ODel (k : bytes) | OMerge (ord : list bytes) | OReopen | OClock (t : Z).
@@ -473,6 +481,40 @@ Fixpoint run (c : cfg) (s : st) (ops : list op) : st * list out * list syscall :
     let '(s1, r, t) := step c s o in
     let '(s2, rs, ts) := run c s1 ops' in
     (s2, r :: rs, t ++ ts)
+  end.
+
+(* ---------- the record a failed append left in the write buffer (C20) ----------
+   std's BufWriter keeps what a failed flush could not write; Writer::new_active_datafile discards it
+   (LogWriter::discard) when the next write or merge replaces the active file, but a clean close writes it out
+   (BufWriter's Drop flushes).  [r = Some e]: the complete record e is still buffered for the file s_active. *)
+Definition reopen_retained (x : st) (e : entry) : res (st * unit * list syscall) :=
+  match append_data (s_dir x) (s_active x) e with
+  | Some (d2, _) =>
+    match open d2 (s_clock x) with
+    | ROk (s', u, t) => ROk (s', u, SWrite (FData (s_active x)) (enc_entry e) :: t)
+    | RFail er => RFail er | RPanicked er => RPanicked er
+    end
+  | None => RFail ENotFound
+  end.
+
+Definition step_r (c : cfg) (x : st) (r : option entry) (o : op) : st * option entry * out * list syscall :=
+  match o, r with
+  | OReopen, Some e =>
+    match reopen_retained x e with
+    | ROk (s', _, t) => (s', None, VUnit, t)
+    | RFail er => (x, r, VErr er, []) | RPanicked er => (x, r, VPanic er, [])
+    end
+  | OGet _, _ | OClock _, _ => let '(x', o', t) := step c x o in (x', r, o', t)
+  | _, _ => let '(x', o', t) := step c x o in (x', None, o', t)
+  end.
+
+Fixpoint run_r (c : cfg) (x : st) (r : option entry) (ops : list op) : st * option entry * list out * list syscall :=
+  match ops with
+  | [] => (x, r, [], [])
+  | o :: ops' =>
+    let '(x1, r1, o1, t) := step_r c x r o in
+    let '(x2, r2, os, ts) := run_r c x1 r1 ops' in
+    (x2, r2, o1 :: os, t ++ ts)
   end.
 
 Definition init : st :=
